@@ -19,9 +19,9 @@ Proof. exact (good_store_of gen_shapes v gen_good). Qed.
 Definition ex_d0 : db :=
   mk_db [mk_srow 1 0 1 []; mk_srow 2 0 0 []] [mk_trow 10 1 0 0; mk_trow 11 1 0 1; mk_trow 900 2 0 0].
 Definition ex_progs : list prog :=
-  [mk_prog Plain NoPhase (mk_mod (Some 2) 100 [(10, 3)] [(12, 0)]) 2 false;
-   mk_prog Txn PhaseSnap (mk_mod None 200 [(11, 4)] []) 2 false;
-   mk_prog Plain (PhaseFixed 1) (mk_mod None 300 [] []) 2 false].
+  [mk_prog Plain NoPhase (mk_mod (Some 2) (Some 100) [(10, 3)] [(12, 0)]) 2 false;
+   mk_prog Txn PhaseSnap (mk_mod None (Some 200) [(11, 4)] []) 2 false;
+   mk_prog Plain (PhaseFixed 1) (mk_mod None (Some 300) [] []) 2 false].
 (* both read version 0; worker 0 commits; worker 1 conflicts, re-reads, commits; worker 2 expects phase 1 but the
    stage is in phase 2 by then: both its attempts fail and it gives up; its failed PLAIN saves leave its implicit
    transaction open (empty), so its E step has to come before any other DML *)
@@ -56,8 +56,8 @@ Proof.
 Qed.
 
 Lemma ex_cas :
-  let n1 := apply_mod (mk_mod None 100 [] []) (snap_of (mk_srow 1 0 1 []) (read_tasks 1 ex_d0)) in
-  let n2 := apply_mod (mk_mod None 200 [] []) (snap_of (mk_srow 1 0 1 []) (read_tasks 1 ex_d0)) in
+  let n1 := apply_mod (mk_mod None (Some 100) [] []) (snap_of (mk_srow 1 0 1 []) (read_tasks 1 ex_d0)) in
+  let n2 := apply_mod (mk_mod None (Some 200) [] []) (snap_of (mk_srow 1 0 1 []) (read_tasks 1 ex_d0)) in
   exists d1 n1', store_stmts (store_variant Plain) (x_task gen_shapes) ex_d0 n1 None = (d1, n1', Ok)
     /\ store_stmts (store_variant Txn) (x_task gen_shapes) d1 n2 (Some 1) = (d1, n2, ConcErr)
     /\ ver_of_db 1 d1 = Some 1.
@@ -72,8 +72,8 @@ Proof.
 Qed.
 
 Definition ex_starve_progs : list prog :=
-  [mk_prog Txn NoPhase (mk_mod None 100 [] []) 2 false; mk_prog Txn NoPhase (mk_mod None 200 [] []) 1 false;
-   mk_prog Txn NoPhase (mk_mod None 300 [] []) 1 false].
+  [mk_prog Txn NoPhase (mk_mod None (Some 100) [] []) 2 false; mk_prog Txn NoPhase (mk_mod None (Some 200) [] []) 1 false;
+   mk_prog Txn NoPhase (mk_mod None (Some 300) [] []) 1 false].
 Definition ex_starve_sched : list (nat * pc) :=
   [(0%nat, AtS); (0%nat, AtT); (1%nat, AtS); (1%nat, AtT); (1%nat, AtU); (1%nat, AtC); (0%nat, AtU);
    (0%nat, AtS); (0%nat, AtT); (2%nat, AtS); (2%nat, AtT); (2%nat, AtU); (2%nat, AtC); (0%nat, AtU)].
